@@ -126,6 +126,7 @@ const (
 	ErrMsgFormatStringLengthNotMatch           = "number of replace values does not match"
 	ErrMsgUnknownFormatPlaceholder             = "%q is an unknown placeholder"
 	ErrMsgFormatUnexpectedTermination          = "unexpected termination of format string"
+	ErrMsgFormatPlaceholderValueTooLarge       = "%s %s is too large"
 	ErrMsgExternalCommand                      = "external command: %s"
 	ErrMsgHttpRequest                          = "failed to get resource from %s: %s"
 	ErrMsgInvalidReloadType                    = "%s is an unknown reload type"
@@ -1461,6 +1462,16 @@ type FormatUnexpectedTerminationError struct {
 func NewFormatUnexpectedTerminationError() error {
 	return &FormatUnexpectedTerminationError{
 		BaseError: NewBaseError(parser.NewNullValue(), ErrMsgFormatUnexpectedTermination, ReturnCodeApplicationError, ErrorFormatUnexpectedTermination),
+	}
+}
+
+type FormatPlaceholderValueTooLargeError struct {
+	*BaseError
+}
+
+func NewFormatPlaceholderValueTooLargeError(name string, literal string) error {
+	return &FormatPlaceholderValueTooLargeError{
+		BaseError: NewBaseError(parser.NewNullValue(), fmt.Sprintf(ErrMsgFormatPlaceholderValueTooLarge, name, literal), ReturnCodeApplicationError, ErrorFormatPlaceholderValueTooLarge),
 	}
 }
 
